@@ -54,7 +54,7 @@ class Harness:
 
 
 def parse_kernel(path):
-    txt = open(path).read(); hs = []; tags = {'flags': [], 'nflags': [], 'models': [], 'noubsan': False, 'exttempl': True, 'unity': [], 'stubs': []}
+    txt = open(path).read(); hs = []; tags = {'flags': [], 'nflags': [], 'models': [], 'noubsan': False, 'exttempl': True, 'unity': [], 'stubs': [], 'imports': []}
     for l in txt.split('\n'):
         m = re.match(r'\s*//@(\w+)\s*(.*)$', l)
         if not m: continue
@@ -68,6 +68,9 @@ def parse_kernel(path):
         elif k == 'noubsan': tags['noubsan'] = True
         elif k == 'keep_extern_templates': tags['exttempl'] = False
         elif k == 'property': tags['property'] = rest
+        elif k == 'import':
+            # //@import FILE [only=REGEX]: the quick/thorough harnesses of another property's kernel are also decided for this one
+            tk = rest.split(); tags['imports'].append((tk[0], dict(x.split('=', 1) for x in tk[1:])))
         elif k == 'harness':
             toks = rest.split(); name = toks[0]; i = 1; loops = []; opts = {'tier': 'quick'}; prm = []; cond = None
             while i < len(toks):
@@ -256,14 +259,21 @@ def main():
     prop = a.prop; tier = a.tier; seed = int(os.environ.get('VERIF_SEED', '0') or 0); t0 = time.time()
     kfiles = sorted(f for f in os.listdir(KERNELS) if f.startswith(prop + '_') and f.endswith('.cpp'))
     if not kfiles: print('no kernels for', prop); sys.exit(2)
+    imports = []
+    for kf in kfiles:
+        for imp, io in parse_kernel(os.path.join(KERNELS, kf))[0].get('imports', []): imports.append((imp, io))
     bdir = os.path.join(OUT, 'build', prop); os.makedirs(bdir, exist_ok=True)
     rdir = os.path.join(OUT, 'replay'); os.makedirs(rdir, exist_ok=True)
-    if a.replay: return do_replay(prop, a.replay, kfiles, bdir)
+    if a.replay: return do_replay(prop, a.replay, kfiles, bdir, imports)
     tus = []; allh = []
     for kf in kfiles:
         tags, hs = parse_kernel(os.path.join(KERNELS, kf))
         hs = [h for h in hs if (h.tier == 'quick' or tier == 'thorough') and (not a.only or re.search(a.only, h.key))]
         if hs: tus.append((os.path.join(KERNELS, kf), tags, hs)); allh += hs
+    for imp, io in imports:
+        tags, hs = parse_kernel(os.path.join(KERNELS, imp))
+        hs = [h for h in hs if (h.tier == 'quick' or (tier == 'thorough' and io.get('thorough') == '1')) and (not io.get('only') or re.search(io['only'], h.key)) and (not a.only or re.search(a.only, h.key))]
+        if hs: tus.append((os.path.join(KERNELS, imp), tags, hs)); allh += hs
     if not allh: print('no harnesses selected'); sys.exit(2)
     # ---- 1. regenerate from the working tree
     cmds = []; tuinfo = {}; tutags = {p: t for p, t, _ in tus}
@@ -364,11 +374,11 @@ def main():
     sys.exit(0)
 
 
-def do_replay(prop, rpath, kfiles, bdir):
+def do_replay(prop, rpath, kfiles, bdir, imports=()):
     hname = None
     for l in open(rpath):
         if l.startswith('harness '): hname = l.split()[1]
-    for kf in kfiles:
+    for kf in kfiles + [i for i, _ in imports]:
         tags, hs = parse_kernel(os.path.join(KERNELS, kf))
         names = sorted(set(h.name for h in hs))
         if hname in names:
